@@ -392,19 +392,24 @@ func propTable() map[string]PropSpec {
 			prog = append(prog, []int64{n, 0, 0, 0}, []int64{n, 0, 1, 2})
 		}
 		prog = append(prog, []int64{385, 192, 1, 1}, []int64{410, 204, 0, 2}, []int64{601, 300, 1, 0})
+		paf := [][]int64{{0, 188}, {1, 188}, {7, 188}, {20, 188}, {183, 188}, {250, 188}, {40, 192}}
+		if th {
+			paf = append(paf, [][]int64{{2, 188}, {8, 188}, {13, 188}, {14, 188}, {40, 188}, {100, 188}, {184, 188}, {255, 188}, {20, 204}, {183, 192}}...)
+		}
 		return []TaskSpec{
 			{Harness: "HarnessC03PES", ArgSets: pes, Reach: []string{"C03.pes.ok", "C03.pes.err"}},
 			{Harness: "HarnessC03PSI", ArgSets: psi, Reach: []string{"C03.psi.end"}},
 			{Harness: "HarnessC03Progress", ArgSets: prog, Reach: []string{"C03.progress.end"}, MaxPaths: 400000},
 			{Harness: "HarnessC14Skip", ArgSets: [][]int64{{0}, {3}, {6}}, Reach: []string{"C14.skip.ok"}},
+			{Harness: "HarnessC03PacketAF", ArgSets: paf, Reach: []string{"C03.packetaf.ok"}, MaxPaths: 400000},
 		}
 	}
 	t["C03"] = PropSpec{ID: "C03", Quick: c03(false), Thorough: c03(true),
 		Bounds: map[string]string{
-			"quick":    "panic-freedom: parsePESData on every byte string of length 0..16 behind a start code; parsePSIData and isPSIComplete on every byte string of length 0..7; every descriptor tag with 0/3/6 arbitrary body bytes; (parsePacket on arbitrary adaptation fields is covered through the C11/C08 layouts and the progress harness). progress: NextPacket/NextData on inputs of length {0,1,187,188,189,376,377} (explicit 188) and {0,100,192,193,194,400} (auto-detect) plus sizes 192/204/300, where the sync byte and header bytes of every packet are arbitrary and the adaptation_field_length is one of {0,183,250}: every call consumes a packet or returns ErrNoMorePackets, which is sticky and reached within len/size+4 calls; seekable, plain and bufio readers",
+			"quick":    "panic-freedom: parsePESData on every byte string of length 0..16 behind a start code; parsePSIData and isPSIComplete on every byte string of length 0..7; every descriptor tag with 0/3/6 arbitrary body bytes; parsePacket on packets with an arbitrary header and up to 40 arbitrary adaptation-field bytes (flags, PCR/OPCR, private-data length, extension) for adaptation_field_length in {0,1,7,20,183,250} (188-byte) and 40 (192-byte packets). progress: NextPacket/NextData on inputs of length {0,1,187,188,189,376,377} (explicit 188) and {0,100,192,193,194,400} (auto-detect) plus sizes 192/204/300, where the sync byte and header bytes of every packet are arbitrary and the adaptation_field_length is one of {0,183,250}: every call consumes a packet or returns ErrNoMorePackets, which is sticky and reached within len/size+4 calls; seekable, plain and bufio readers",
 			"thorough": "PES up to 24 bytes, PSI up to 9 bytes",
 		},
-		Outside: "whole-stream arbitrary bytes through the full parser stack at once (path explosion): covered compositionally; parsePacket on 188 fully arbitrary bytes did not finish in 25 minutes and is not claimed"}
+		Outside: "whole-stream arbitrary bytes through the full parser stack at once (path explosion): covered compositionally; parsePacket on 188 fully arbitrary bytes in one query did not finish in 25 minutes: the adaptation field is sharded by its declared length and the payload is fixed junk (parsePacket copies it without looking at it)"}
 	c18 := func(th bool) []TaskSpec {
 		var rd, wr [][]int64
 		for auto := int64(0); auto <= 1; auto++ {
